@@ -361,6 +361,9 @@ func (c *Ctx) Finish() int {
 	b, _ := json.MarshalIndent(ev, "", " ")
 	os.MkdirAll(filepath.Join(verifRoot, "evidence"), 0o755)
 	evPath := filepath.Join(verifRoot, "evidence", c.Prop+".json")
+	if os.Getenv("VERIF_NO_EVIDENCE") != "" { // mutant runs must not overwrite the committed evidence
+		evPath = filepath.Join(os.TempDir(), "verif-mutant-evidence-"+c.Prop+".json")
+	}
 	if err := os.WriteFile(evPath+".tmp", b, 0o644); err == nil {
 		os.Rename(evPath+".tmp", evPath)
 	}
